@@ -217,7 +217,7 @@ def _run_tables(ctx):
                     rets.append(any(x.k == "var" and x.a.get("name") == "result" for x in o.walk()))
         ctx.ob("R4", "returns-accumulated-result", bool(rets) and all(rets), "process_input's Ok value must be the accumulated result", fn=f, how="provenance slice")
         # result initialised Success
-        rl = f.locals_named("result")
+        rl = C.find_local(f, "result", ty="xargs::CommandResult")
         if rl:
             inits = [prim._origin_of_def(f, d, 4, set()).strip() for d in prim.local_defs(f).get(rl[0], []) if d[1] == "assign"]
             ctx.ob("R4", "result-starts-success", len(inits) == 1 and inits[0].k == "agg" and str(inits[0].a).endswith("CommandResult::Success"), "the accumulated result starts as %s" % [i.fmt() for i in inits], fn=f, how="local writers")
